@@ -1265,6 +1265,8 @@ impl Formatter {
         &self,
         input: S,
     ) -> Result<T> {
+        #[cfg(feature = "verif-hooks")]
+        use crate::verif_hooks::Local;
         let mut s = input.as_ref().as_bytes();
 
         let mut dt = NaiveDateTime::new();
